@@ -77,6 +77,9 @@ var pool = []conf{
 	{"schema-rootB-strict", schemaRules, "B"},
 	{"nid-us-alternation", hdr + "SecRule ARGS \"@validateNid us " + nidExpr + "\" \"id:1,phase:1,deny,status:403\"\n", ""},
 	{"nid-cl-alternation", hdr + "SecRule ARGS \"@validateNid cl " + nidExpr + "\" \"id:1,phase:1,deny,status:403\"\n", ""},
+	// one expression, two countries whose check functions disagree on the probes 111111111 (a valid RUT, not an SSN) and 123456780 (the reverse)
+	{"nid-us-nine-digits", hdr + "SecRule ARGS \"@validateNid us [0-9]{9}\" \"id:1,phase:1,deny,status:403\"\n", ""},
+	{"nid-cl-nine-digits", hdr + "SecRule ARGS \"@validateNid cl [0-9]{9}\" \"id:1,phase:1,deny,status:403\"\n", ""},
 	{"nid-foo", hdr + "SecRule ARGS \"@validateNid cl foo\" \"id:1,phase:1,deny,status:403\"\n", ""},
 	// the same text split differently into phrases: two words vs one phrase containing a space
 	{"pm-two-words", hdr + "SecRule ARGS \"@pm a1 b2\" \"id:1,phase:1,deny,status:403\"\n", ""},
@@ -98,6 +101,8 @@ var requests = []scen.Req{
 	{URI: "/p?Foo-a=x", Headers: [][2]string{{"Foo-h", "x"}}},
 	{URI: "/orders", Headers: [][2]string{{"Content-Type", "application/json"}}, Body: `{"name":"n"}`}, // valid for the loose schema only
 	{URI: "/p?x=12345678-1"}, // leftmost-first and leftmost-longest matches of the alternation differ
+	{URI: "/p?x=111111111"},
+	{URI: "/p?x=123456780"},
 }
 
 func buildConf(c conf) (coraza.WAF, error) {
